@@ -378,6 +378,23 @@ def run(ctx):
                   "Client::release() can return without removing the entry (a condition guards the removal): after its transaction the client's key still maps to the server connection it used; "
                   "a CancelRequest with that key - 16 bytes on a fresh connection - cancels the statement another client is running there", "", w12 and rl12.describe_path(w12))
 
+    # ---------------- R13 one client cannot silently invalidate the statements pgcat keeps for all (D58)
+    r13 = ctx.rule("C11-R13", "the PGCAT_n statements of a server connection are shared by its clients and their names are easy to guess: when the server reports that a client deallocated a single statement "
+                   "(command tag DEALLOCATE) the connection is marked for the prepare clean-up, so that the cache and the session are brought back in step (DEALLOCATE ALL + empty cache) before anybody else uses it", floor=1)
+    rv13 = ctx.body("pgcat::server::Server::recv::{closure#0}", r13)
+    if rv13:
+        sw13 = switches(rv13)
+        marks13 = [blk for blk, i, st in rv13.assigns() if proj_fields(st["lhs"])[-1:] == ["needs_cleanup_prepare"] and st["rv"]["k"] == "use" and const_int(st["rv"].get("op")) == 1]
+        eq13 = [k for k in rv13.calls("re:PartialEq.*::eq$") if "DEALLOCATE" in arg_strs(rv13, k)]
+        ok13 = False
+        for k in eq13:
+            for sw_, o_, te, fe in bool_value_edges(rv13, lambda o, k=k: o.kind == "call" and o.call.block == k.block, sw13):
+                if any(rv13.dominates(te[1], b_) for b_ in marks13):
+                    ok13 = True
+        r13.check(ok13, "single-deallocate=>cleanup-marked", "the command tag `DEALLOCATE` sets needs_cleanup_prepare",
+                  "Server::recv does not react to the command tag `DEALLOCATE`: any client can run `DEALLOCATE \"PGCAT_0\"`; the cache keeps saying the statement is there, no Parse is sent again and every later Bind of it - "
+                  "by any client of that connection - fails with `prepared statement does not exist` for the life of the connection")
+
     # ---------------- inventory (informational)
     # ---------------- R10 what one client puts into the pool-wide statement cache is not served to another
     r10 = ctx.rule("C11-R10", "a Parse that enters the pool-wide prepared-statement cache is handed to other clients only for byte-identical statements: every field of Parse that the encoder writes to the server "
